@@ -189,6 +189,13 @@ fn of_slice(r: Result<&[u8], DltParseError>) -> Outcome {
     }
 }
 
+/// which entry point call number `i` uses: bit i (mod 64) of `api` set = next_message_slice, clear = read_message
+pub const API_MESSAGE: u64 = 0;
+pub const API_SLICE: u64 = u64::MAX;
+pub fn use_slice(api: u64, i: usize) -> bool {
+    (api >> (i % 64)) & 1 == 1
+}
+
 /// how the reader under test is constructed: (buffer capacity, maximal message length), `None` = `::new`
 pub fn capacities(kind: u8, stream: &[u8], storage: bool) -> Option<(usize, usize)> {
     match kind % 6 {
@@ -220,7 +227,7 @@ pub fn capacities(kind: u8, stream: &[u8], storage: bool) -> Option<(usize, usiz
 }
 
 /// Call the blocking reader until end of stream (bounded), collecting the outcome of every call.
-pub fn drive_blocking(stream: &[u8], storage: bool, sched: &Schedule, reader_kind: u8, filter: Option<&ProcessedDltFilterConfig>, slices: bool) -> (Vec<Outcome>, Trace) {
+pub fn drive_blocking(stream: &[u8], storage: bool, sched: &Schedule, reader_kind: u8, filter: Option<&ProcessedDltFilterConfig>, api: u64) -> (Vec<Outcome>, Trace) {
     let trace = Rc::new(RefCell::new(Trace::default()));
     let src = Source::new(stream, sched, trace.clone());
     let mut out = vec![];
@@ -231,13 +238,29 @@ pub fn drive_blocking(stream: &[u8], storage: bool, sched: &Schedule, reader_kin
             Some((b, m)) => DltMessageReader::with_capacity(b, m, src, storage),
         };
         let mut outs = vec![];
-        for _ in 0..bound + 1 {
+        for i in 0..bound + 1 {
+            let slices = use_slice(api, i);
             let o = match guard(|| if slices { of_slice(reader.next_message_slice()) } else { of_parsed(dlt_core::read::read_message(&mut reader, filter)) }) {
                 Ok(o) => o,
                 Err(p) => Outcome::Panic(p.describe()),
             };
             let stop = matches!(o, Outcome::End | Outcome::Panic(_));
+            let ended = matches!(o, Outcome::End);
             outs.push(o);
+            if ended {
+                // the stream is exhausted: further calls must neither panic nor produce a message
+                for j in 0..2 {
+                    let extra = match guard(|| if use_slice(api, i + 1 + j) { of_slice(reader.next_message_slice()) } else { of_parsed(dlt_core::read::read_message(&mut reader, filter)) }) {
+                        Ok(o) => o,
+                        Err(p) => Outcome::Panic(p.describe()),
+                    };
+                    match extra {
+                        Outcome::Panic(p) => outs.push(Outcome::Panic(format!("call after end of stream: {}", p))),
+                        Outcome::Item(_) | Outcome::Slice(_) | Outcome::Filtered(_) => outs.push(Outcome::Runaway("a message was delivered after end of stream".to_string())),
+                        _ => {}
+                    }
+                }
+            }
             if stop {
                 return outs;
             }
@@ -276,7 +299,7 @@ fn block_on_budget<F: Future>(fut: F, budget: usize) -> Option<F::Output> {
 }
 
 /// Same protocol for the async reader, on a hand-rolled executor.
-pub fn drive_async(stream: &[u8], storage: bool, sched: &Schedule, reader_kind: u8, filter: Option<&ProcessedDltFilterConfig>, slices: bool) -> (Vec<Outcome>, Trace) {
+pub fn drive_async(stream: &[u8], storage: bool, sched: &Schedule, reader_kind: u8, filter: Option<&ProcessedDltFilterConfig>, api: u64) -> (Vec<Outcome>, Trace) {
     let trace = Rc::new(RefCell::new(Trace::default()));
     let src = Source::new(stream, sched, trace.clone());
     let mut out = vec![];
@@ -290,7 +313,8 @@ pub fn drive_async(stream: &[u8], storage: bool, sched: &Schedule, reader_kind: 
             Some((b, m)) => DltStreamReader::with_capacity(b, m, src, storage),
         };
         let mut outs = vec![];
-        for _ in 0..bound + 1 {
+        for i in 0..bound + 1 {
+            let slices = use_slice(api, i);
             let o = match guard(|| {
                 if slices {
                     block_on_budget(reader.next_message_slice(), budget).map(of_slice)
@@ -329,7 +353,7 @@ pub struct Reference {
     pub truncated_in_header: bool,
     pub truncated_in_body: bool,
 }
-pub fn reference(stream: &[u8], storage: bool, filter: Option<&ProcessedDltFilterConfig>, slices: bool) -> Reference {
+pub fn reference(stream: &[u8], storage: bool, filter: Option<&ProcessedDltFilterConfig>, api: u64) -> Reference {
     let s = if storage { 16 } else { 0 };
     let mut r = Reference { outcomes: vec![], starts: vec![], hostile_at: None, truncated_in_header: false, truncated_in_body: false };
     let mut pos = 0;
@@ -354,7 +378,7 @@ pub fn reference(stream: &[u8], storage: bool, filter: Option<&ProcessedDltFilte
             return r;
         }
         let piece = &stream[pos..pos + total];
-        if slices {
+        if use_slice(api, r.outcomes.len()) {
             r.outcomes.push(Outcome::Slice(piece.to_vec()));
         } else {
             r.outcomes.push(match guard(|| dlt_message(piece, filter, storage).map(|(_, pm)| pm)) {
